@@ -182,17 +182,22 @@ def run(c, tier):
                 if k >= lim:
                     big[lim] += 1
         prev = e
-    # vacuity: the interesting situations must have occurred in the real histories
-    for what, n in (("evictions", evictions), ("Banned refusals", rets.get("Banned", 0)), ("PeerIdExists refusals", rets.get("PeerIdExists", 0)),
-                    ("outbound-limit refusals", rets.get("ReachMaxOutboundLimit", 0)), ("non-empty fetches", fetched),
-                    ("restarts", cnt.get("Restart", 0)), ("bans", cnt.get("BanAddr", 0)),
-                    ("evictions among more than 8 candidates", big[9]), ("evictions among more than 16 candidates", big[17])):
-        if n == 0:
-            raise V.ToolError("peernet histories are vacuous: no %s" % what)
+    # validation first: a rejected history is reported even when the code under test no longer produces a situation the
+    # vacuity guards ask for
     good, bad = validate(c, evs, "drive", {"source": "drive", "seed": V.seed()})
+    if not bad:
+        # vacuity: the interesting situations must have occurred in the real histories
+        for what, n in (("evictions", evictions), ("Banned refusals", rets.get("Banned", 0)), ("PeerIdExists refusals", rets.get("PeerIdExists", 0)),
+                        ("outbound-limit refusals", rets.get("ReachMaxOutboundLimit", 0)), ("non-empty fetches", fetched),
+                        ("restarts", cnt.get("Restart", 0)), ("bans", cnt.get("BanAddr", 0)),
+                        ("evictions among more than 8 candidates", big[9]), ("evictions among more than 16 candidates", big[17])):
+            if n == 0:
+                raise V.ToolError("peernet histories are vacuous: no %s" % what)
     for i, h in enumerate(_split(evs)):
         c.case({"g_peernet_history": i, "seed": V.seed(), "events": len(h)}, any(e["ev"] == "Accept" and e.get("evicted") for e in h))
-    c.sample({"growth_peernet_event": next(e for e in evs if e["ev"] == "Accept" and e.get("evicted"))})
+    smp = next((e for e in evs if e["ev"] == "Accept" and e.get("evicted")), None)
+    if smp:
+        c.sample({"growth_peernet_event": smp})
     cevs = _harness("ctl", ["--seed", V.seed() * 5 + 1, "--histories", 3 if quick else 12, "--steps", 40])
     cgood, cbad = validate(c, cevs, "ctl", {"source": "ctl", "seed": V.seed()})
     for i, h in enumerate(_split(cevs)):
